@@ -105,7 +105,7 @@ fn emit_dec<T: Pixel>(sh: &mut Shards, c: &Cfg, st: u8, px: &[[u16; 3]], w: usiz
     list(&mut s, px, |o, p| {
         let _ = write!(o, "[{},{},{}]", p[0], p[1], p[2]);
     });
-    match Rgb::try_from(&yuv) {
+    match crate::util::guard(|| Rgb::try_from(&yuv)).map_err(|p| p.to_string()).and_then(|r| r.map_err(|e| crate::frames::err_name_conv(e).to_string())) {
         Ok(rgb) => {
             let _ = write!(s, ",\"res\":\"ok\",\"wo\":{},\"ho\":{},\"tco\":{},\"cpo\":{},\"out\":", rgb.width(), rgb.height(), rgb.transfer() as u8, rgb.primaries() as u8);
             list(&mut s, rgb.data(), px_fx);
@@ -115,7 +115,7 @@ fn emit_dec<T: Pixel>(sh: &mut Shards, c: &Cfg, st: u8, px: &[[u16; 3]], w: usiz
             }
         }
         Err(e) => {
-            let _ = write!(s, ",\"res\":\"{}\"", crate::frames::err_name_conv(e));
+            let _ = write!(s, ",\"res\":\"{e}\"");
         }
     }
     sh.emit(&s);
@@ -165,7 +165,7 @@ fn emit_dec_probe<T: Pixel>(sh: &mut Shards, c: &Cfg, st: u8, px: &[[u16; 3]], w
     list(&mut s, &sel, |o, p| {
         let _ = write!(o, "[{},{},{}]", p[0], p[1], p[2]);
     });
-    match Rgb::try_from(&yuv) {
+    match crate::util::guard(|| Rgb::try_from(&yuv)).map_err(|p| p.to_string()).and_then(|r| r.map_err(|e| crate::frames::err_name_conv(e).to_string())) {
         Ok(rgb) if rgb.data().len() == px.len() => {
             let out: Vec<[f32; 3]> = idx.iter().map(|&i| rgb.data()[i]).collect();
             let _ = write!(s, ",\"res\":\"ok\",\"wo\":{},\"ho\":{},\"tco\":{},\"cpo\":{},\"out\":", rgb.width(), rgb.height(), rgb.transfer() as u8, rgb.primaries() as u8);
@@ -173,7 +173,7 @@ fn emit_dec_probe<T: Pixel>(sh: &mut Shards, c: &Cfg, st: u8, px: &[[u16; 3]], w
         }
         Ok(_) => s.push_str(",\"res\":\"shape\""),
         Err(e) => {
-            let _ = write!(s, ",\"res\":\"{}\"", crate::frames::err_name_conv(e));
+            let _ = write!(s, ",\"res\":\"{e}\"");
         }
     }
     sh.emit(&s);
@@ -271,7 +271,7 @@ fn emit_enc<T: Pixel>(sh: &mut Shards, c: &Cfg, st: u8, px: &[[f32; 3]], w: usiz
     let mut s = String::with_capacity(64 + px.len() * 120);
     let _ = write!(s, "\"ev\":\"{ev}\",\"cfg\":{},\"st\":{st},\"w\":{w},\"h\":{h},\"rgb\":", c.json());
     list(&mut s, px, px_fx);
-    match Yuv::<T>::try_from((&rgb, c.yuv_config())) {
+    match crate::util::guard(|| Yuv::<T>::try_from((&rgb, c.yuv_config()))).map_err(|p| p.to_string()).and_then(|r| r.map_err(|e| crate::frames::err_name_conv(e).to_string())) {
         Ok(yuv) => {
             let _ = write!(s, ",\"res\":\"ok\",\"wo\":{},\"ho\":{},\"cfgo\":{},\"out\":[", yuv.width(), yuv.height(), cfg_json_of(&yuv.config()));
             for p in 0..3 {
@@ -285,7 +285,7 @@ fn emit_enc<T: Pixel>(sh: &mut Shards, c: &Cfg, st: u8, px: &[[f32; 3]], w: usiz
             s.push(']');
         }
         Err(e) => {
-            let _ = write!(s, ",\"res\":\"{}\"", crate::frames::err_name_conv(e));
+            let _ = write!(s, ",\"res\":\"{e}\"");
         }
     }
     sh.emit(&s);
@@ -338,9 +338,9 @@ pub fn gen_c02(sh: &mut Shards, o: &Opts) -> serde_json::Value {
             }
         };
         if st == 8 {
-            fin(&mut s, Yuv::<u8>::try_from((&rgb, c.yuv_config())).map(|y| (y.width(), y.height(), cfg_json_of(&y.config()), [plane_samples(&y, 0), plane_samples(&y, 1), plane_samples(&y, 2)])).map_err(|e| crate::frames::err_name_conv(e).to_string()));
+            fin(&mut s, crate::util::guard(|| Yuv::<u8>::try_from((&rgb, c.yuv_config()))).unwrap_or(Err(yuvxyb::ConversionError::UnsupportedMatrixCoefficients)).map(|y| (y.width(), y.height(), cfg_json_of(&y.config()), [plane_samples(&y, 0), plane_samples(&y, 1), plane_samples(&y, 2)])).map_err(|e| crate::frames::err_name_conv(e).to_string()));
         } else {
-            fin(&mut s, Yuv::<u16>::try_from((&rgb, c.yuv_config())).map(|y| (y.width(), y.height(), cfg_json_of(&y.config()), [plane_samples(&y, 0), plane_samples(&y, 1), plane_samples(&y, 2)])).map_err(|e| crate::frames::err_name_conv(e).to_string()));
+            fin(&mut s, crate::util::guard(|| Yuv::<u16>::try_from((&rgb, c.yuv_config()))).unwrap_or(Err(yuvxyb::ConversionError::UnsupportedMatrixCoefficients)).map(|y| (y.width(), y.height(), cfg_json_of(&y.config()), [plane_samples(&y, 0), plane_samples(&y, 1), plane_samples(&y, 2)])).map_err(|e| crate::frames::err_name_conv(e).to_string()));
         }
         sh.emit(&s);
         evals += (w * h) as u64;
@@ -354,17 +354,25 @@ pub fn gen_c02(sh: &mut Shards, o: &Opts) -> serde_json::Value {
 fn roundtrip_collect<T: Pixel>(c: &Cfg, px: &[[u16; 3]], tab: &mut BTreeSet<(u8, u16, u16)>, bad: &mut Vec<String>) {
     let w = px.len();
     let yuv: Yuv<T> = yuv444::<T>(px, w, 1, c).expect("ctor");
-    let rgb = match Rgb::try_from(&yuv) {
-        Ok(r) => r,
-        Err(e) => {
+    let rgb = match crate::util::guard(|| Rgb::try_from(&yuv)) {
+        Ok(Ok(r)) => r,
+        Ok(Err(e)) => {
             bad.push(format!("dec:{}", crate::frames::err_name_conv(e)));
             return;
         }
+        Err(p) => {
+            bad.push(format!("dec:{p}"));
+            return;
+        }
     };
-    let back = match Yuv::<T>::try_from((&rgb, yuv.config())) {
-        Ok(r) => r,
-        Err(e) => {
+    let back = match crate::util::guard(|| Yuv::<T>::try_from((&rgb, yuv.config()))) {
+        Ok(Ok(r)) => r,
+        Ok(Err(e)) => {
             bad.push(format!("enc:{}", crate::frames::err_name_conv(e)));
+            return;
+        }
+        Err(p) => {
+            bad.push(format!("enc:{p}"));
             return;
         }
     };
